@@ -416,6 +416,19 @@ func runC08(in sx.SX) (sx.SX, string) {
 			}
 		}
 	}
+	// Choose(i, v1, ..., vn) denotes vi; an index outside 0..n has no meaning and is an error, never a substituted value
+	if fail == "" && up == "CHOOSE" && len(args) >= 3 {
+		if c, cerr := m.Convert(args[0], variants.Integer); cerr == nil && c != nil && c.Type() == variants.Integer {
+			i := c.AsInteger()
+			if i < 0 || i >= len(args) {
+				if err == nil {
+					fail = fmt.Sprintf("Choose with index %d and %d alternatives returned %s instead of an error", i, len(args)-1, sx.Text(obs))
+				}
+			} else if i >= 1 && (err != nil || res == nil || sx.Text(valSX(res)) != sx.Text(valSX(args[i]))) {
+				fail = fmt.Sprintf("Choose with index %d returned %s, alternative %d is %s", i, sx.Text(obs), i, sx.Text(valSX(args[i])))
+			}
+		}
+	}
 	// Sum is the left fold of + over its arguments (the first argument decides the type of every step)
 	if fail == "" && up == "SUM" && len(args) >= 2 {
 		acc, ferr := args[0], error(nil)
